@@ -280,7 +280,7 @@ def analyse(prop, model, lin, timeout_ms=4000):
 def work(args):
     i, oracle = args
     try:
-        parts = parse_sexps(oracle)
+        parts = parse_sexps(oracle[3:] if oracle.startswith("py:") else oracle)
         prop, model, lin = parts[0], parts[1], parts[2]
         return i, analyse(prop, model, lin)
     except ValueError as e:
